@@ -696,3 +696,46 @@ def item_in_child_context(chk, prefix="C08"):
                   desc="branch i: id = id-for-logical-step(i) of the executor context (no counter involved), parent link = that context's parent id, a FRESH child context with parent id = the branch id runs the item, name = prefix + i, sub type = the iteration sub type; the replay tracker is told the branch id",
                   sample="_execute_item_in_child_context for an arbitrary branch index")
     return eng
+
+
+def resubmitter_total(chk, prefix="C06"):
+    """the timer thread's resubmission callback (nested in execute): a failing empty checkpoint must not kill the timer thread silently"""
+    eng = Engine(hooks=ExecuteHooks())
+    P = eng.program
+    st = St()
+    outer = P.func(CE + ".execute")
+    resub = P.nested_func(outer, "resubmitter")
+    chk.function(CE + ".execute.<locals>.resubmitter", "verified")
+    ev = st.alloc("opaque:Event", {})
+    self_ = st.alloc(P.cls(CE), {"_completion_event": ev, "_suspend_exception": None, "_fatal_exception": None})
+    state = st.alloc("opaque:ExecutionState", {})
+
+    class H(ExecuteHooks):
+        def opaque_call(self, eng_, s, fn, args, kwargs):
+            if fn.name == "ExecutionState.create_checkpoint":
+                s.emit("cp")
+                s2 = s.fork()
+                exc = s2.alloc(P.cls("exceptions.BackgroundThreadError"), {"args": ("bg",), "source_exception": eng_.new_symexc(s2, "src")})
+                s2.emit("cp_failed", exc=exc)
+                return [("val", None, s), ("raise", exc, s2)]
+            if fn.name == "submit_task":
+                s.emit("resubmitted", exe=args[0])
+                return [("val", None, s)]
+            return ExecuteHooks.opaque_call(self, eng_, s, fn, args, kwargs)
+    eng.hooks = H()
+    st.ghost["self"] = self_
+    exe = st.alloc("opaque:ExecutableWithState", {})
+    closure = {"self": self_, "execution_state": state, "submit_task": OpaqueFn("submit_task"), "__module__": outer.module, "__funcinfo__": outer}
+    for k, v, s in eng.call_func(resub, [exe], {}, st, closure=closure):
+        chk.paths += 1
+        failed = [e for e in s.trace if e.kind == "cp_failed"]
+        sets = [e for e in s.trace if e.kind == "event_set"]
+        resubmitted = [e for e in s.trace if e.kind == "resubmitted"]
+        if failed:
+            goal = k == "val" and len(sets) == 1 and s.get(self_).get("_fatal_exception") == failed[0].exc and not resubmitted
+            desc = "a checkpoint failure during a timer-driven resubmission is recorded and wakes execute() (which re-raises it); the branch is not resubmitted"
+        else:
+            goal = k == "val" and len(resubmitted) == 1 and resubmitted[0].exe == exe and not sets
+            desc = "otherwise the branch is resubmitted after the refreshing checkpoint"
+        chk.prove(f"{prefix}.timer.resubmit_total", s.pc, goal, desc=desc)
+    return eng
